@@ -245,7 +245,7 @@ func pfx63(h common.Hash) common.Hash {
 func genSource(r *Rng, tier string, cfg config) *source {
 	maxAcc := 40
 	if tier == "thorough" {
-		maxAcc = 300
+		maxAcc = 60
 	}
 	n := 1 + r.Intn(maxAcc)
 	if r.Chance(1, 3) {
@@ -347,7 +347,7 @@ func gen(r *Rng, tier string, emit func(Sx)) {
 	r = NewRng(r.U64())
 	n := 36
 	if tier == "thorough" {
-		n = 600
+		n = 360
 	}
 	for i := 0; i < n; i++ {
 		cr := r.Fork()
@@ -420,10 +420,12 @@ func run(c Sx) Result {
 		var retry bool
 		res, retry = runOnce(cfg, src, events, script)
 		if !retry {
-			break
+			return res
 		}
 	}
-	return res
+	// the recorded trace does not fit the real run (three attempts): a shape error, so that the
+	// shrinker does not take a malformed candidate for a failing one; in run mode it is reported
+	panic("hxlib: " + res.Oracle)
 }
 
 func runOnce(cfg config, src *source, events, script SL) (res Result, retry bool) {
